@@ -5,7 +5,7 @@ import gen as G
 import codec
 
 MODEL_TARGETS = ["model/Ser.vo", "model/De.vo", "spec/Denote.vo", "spec/Encoding.vo"]
-COQ_TARGETS = ["props/C01.vo", "proofs/SerDispatchTie.vo"]
+COQ_TARGETS = ["props/C01.vo", "proofs/SerDispatchTie.vo", "proofs/DeDispatchTie.vo"]
 THEOREMS = [("C01", ["C01_any", "C01_any_default", "C01_node", "C01_encoding_injective", "C01_encoding_prefix_free", "C01_typed"]),
             ("SerDispatchTie", ["tie_ser_bool", "tie_ser_integer", "tie_ser_f32", "tie_ser_f64", "tie_ser_str", "tie_ser_bytes", "tie_ser_unit", "tie_ser_unit_struct", "tie_ser_unit_variant", "tie_ser_seq", "tie_ser_map", "tie_ser_forward_names", "tie_ser_simple_forwards", "ser_int_leaf_is_rows", "ser_str_leaf_is_rows", "ser_bytes_leaf_is_rows"])]
 PROOF_FILES = ["proofs/RoundTripProofs.v", "proofs/SerProofs.v", "proofs/DeProofs.v", "proofs/VarintProofs.v", "props/C01.v", "proofs/RoundTripTyped.v", "proofs/DS1.v", "proofs/DS2.v", "proofs/DS3.v", "proofs/DS4.v", "proofs/DS5.v", "proofs/DS6.v", "proofs/DS7.v", "proofs/SerDispatchTie.v"]
